@@ -67,7 +67,23 @@ fn apply_real<const N: usize>(b: &mut ArrayBuf<N>, op: &BufOp) -> Option<bool> {
             None
         }
         BufOp::FromIter(s) => {
-            if s.len() % 2 == 1 {
+            if s.len() % 3 == 2 {
+                // an iterator that is not fused: after its end it would yield more; collecting must
+                // stop at the first None and not ask again
+                let mut i = 0usize;
+                let it = std::iter::from_fn(|| {
+                    let k = i;
+                    i += 1;
+                    if k < s.len() {
+                        Some(s.0[k])
+                    } else if k == s.len() {
+                        None
+                    } else {
+                        Some(0xee)
+                    }
+                });
+                *b = it.collect::<ArrayBuf<N>>();
+            } else if s.len() % 2 == 1 {
                 // an iterator that yields at most N bytes but cannot promise so up front
                 // (size_hint upper bound = length of the underlying source > N)
                 let total = s.len() + N + 3;
